@@ -210,6 +210,8 @@ impl<'a> Cx<'a> {
     pub fn coerce(&self, v: Val, want: &Ty) -> Val {
         match (&v.ty, want) {
             (Ty::Vec, Ty::Slice) => Val::new(format!("(vl {})", v.t), Ty::Slice),
+            // rule 31: `&self.data` (a `Vec<Limb>`) as a slice
+            (Ty::StdVec, Ty::Slice) => Val::new(format!("(vl {})", v.t), Ty::Slice),
             (Ty::Table, Ty::Slice) => Val::new(v.t, Ty::Slice),
             _ => v,
         }
@@ -523,7 +525,13 @@ impl<'a> Cx<'a> {
             None => return Ok(None),
         };
         if rty == Ty::Raw {
-            return Ok(Some(self.lower_method_raw(m)?));
+            return Ok(Some(self.lower_method_raw(m, "StackVec")?));
+        }
+        if rty == Ty::Hv {
+            return Ok(Some(self.lower_method_raw(m, "HeapVec")?));
+        }
+        if rty == Ty::StdVec {
+            return Ok(Some(self.lower_method_std(m)?));
         }
         let noargs = |n: usize| -> R<()> {
             if n != 0 {
